@@ -46,9 +46,28 @@ structure Admissible (upper : Text → Text) (f : TType → Text → Text) : Pro
   plain : ∀ tt v, TType.isIn tt T.Keyword = false → TType.isIn tt T.Whitespace = false → f tt v = v
   value : ∀ (n : Node) (w : Text), w ∈ skipWords → (upper (respell f n).value == w) = (upper n.value == w)
 
-/-- the patterns of a `match`/`m=` argument never have a whitespace type (decided for every generated table at its
-point of use): a whitespace-typed pattern with concrete values would read the value of a whitespace leaf -/
-def SafePats (ps : List MPat) : Bool := ps.all (fun p => !TType.isIn p.tt T.Whitespace)
+/-- the leaf types whose values the engine never reads (outside `group_functions`' `value` test): whitespace types
+and the two identifier types `Name` (plain and backtick-quoted names) and `String.Symbol` (double-quoted names) -/
+def freeTT (tt : TType) : Bool := TType.isIn tt T.Whitespace || tt == T.Name || tt == T.StringSymbol
+
+/-- like `Admissible`, but identifier-typed leaves (`Name`, `String.Symbol`) may be re-spelled too: `plain` is only
+required of the leaves that are neither keywords nor of a free type -/
+structure AdmissibleNames (upper : Text → Text) (f : TType → Text → Text) : Prop where
+  kw : ∀ tt v, TType.isIn tt T.Keyword = true → upper (f tt v) = upper v
+  plain : ∀ tt v, TType.isIn tt T.Keyword = false → freeTT tt = false → f tt v = v
+  value : ∀ (n : Node) (w : Text), w ∈ skipWords → (upper (respell f n).value == w) = (upper n.value == w)
+
+theorem Admissible.toNames {upper : Text → Text} {f : TType → Text → Text} (h : Admissible upper f) :
+    AdmissibleNames upper f :=
+  { kw := h.kw
+    plain := fun tt v hk hf => h.plain tt v hk (by
+      simp only [freeTT, Bool.or_eq_false_iff] at hf
+      exact hf.1.1)
+    value := h.value }
+
+/-- no pattern of a `match`/`m=` argument has a free type together with concrete values (decided for every generated
+table at its point of use): such a pattern would read the value of a whitespace or identifier leaf -/
+def SafePats (ps : List MPat) : Bool := ps.all (fun p => !freeTT p.tt || p.values.isNone)
 
 section Prim
 variable {upper : Text → Text} {f : TType → Text → Text}
@@ -73,7 +92,8 @@ theorem respell_ttIn_fun (n : Node) : (respell f n).ttIn = n.ttIn := funext (res
   cases n <;> simp [Node.ttEqAny]
 
 /-- `Token.match` does not see an admissible re-spelling, for a pattern whose type is not a whitespace type -/
-theorem respell_matchP (ha : Admissible upper f) (n : Node) (p : MPat) (hp : TType.isIn p.tt T.Whitespace = false) :
+theorem respell_matchP (ha : AdmissibleNames upper f) (n : Node) (p : MPat)
+    (hp : (!freeTT p.tt || p.values.isNone) = true) :
     (respell f n).matchP upper p = n.matchP upper p := by
   cases n with
   | grp c ks => simp [Node.matchP, Node.match]
@@ -91,34 +111,34 @@ theorem respell_matchP (ha : Admissible upper f) (n : Node) (p : MPat) (hp : TTy
         | true => simp only [if_true]; rw [ha.kw t v hk]
         | false =>
           simp only [Bool.false_eq_true, if_false]
-          rw [ha.plain t v hk (by rw [hteq]; exact hp)]
+          rw [ha.plain t v hk (by rw [hteq]; simpa [hv] using hp)]
 
-theorem respell_matchAny (ha : Admissible upper f) (n : Node) (ps : List MPat) (hp : SafePats ps = true) :
+theorem respell_matchAny (ha : AdmissibleNames upper f) (n : Node) (ps : List MPat) (hp : SafePats ps = true) :
     ps.any ((respell f n).matchP upper) = ps.any (n.matchP upper) := by
   induction ps with
   | nil => rfl
   | cons p ps ih =>
-    simp only [SafePats, List.all_cons, Bool.and_eq_true, Bool.not_eq_true'] at hp
+    simp only [SafePats, List.all_cons, Bool.and_eq_true] at hp
     simp only [List.any_cons]
     rw [respell_matchP ha n p hp.1, ih (by simpa [SafePats] using hp.2)]
 
-theorem respell_matchAny' (ha : Admissible upper f) (n : Node) (ps : List MPat) (hp : SafePats ps = true) :
+theorem respell_matchAny' (ha : AdmissibleNames upper f) (n : Node) (ps : List MPat) (hp : SafePats ps = true) :
     (respell f n).matchAny upper ps = n.matchAny upper ps := respell_matchAny ha n ps hp
 
-theorem respell_imt (ha : Admissible upper f) (n : Node) (i : List Cls) (m : List MPat) (t : TArg)
+theorem respell_imt (ha : AdmissibleNames upper f) (n : Node) (i : List Cls) (m : List MPat) (t : TArg)
     (hp : SafePats m = true) : imt upper (respell f n) i m t = imt upper n i m t := by
   unfold imt
   rw [respell_matchAny ha n m hp]
   cases t <;> simp [respell_ttIn_fun]
 
-theorem respell_imtOpt (ha : Admissible upper f) (o : Option Node) (i : List Cls) (m : List MPat) (t : TArg)
+theorem respell_imtOpt (ha : AdmissibleNames upper f) (o : Option Node) (i : List Cls) (m : List MPat) (t : TArg)
     (hp : SafePats m = true) : imtOpt upper (o.map (respell f)) i m t = imtOpt upper o i m t := by
   cases o with
   | none => rfl
   | some n => exact respell_imt ha n i m t hp
 
 /-- `token.is_keyword and token.normalized == w` -/
-theorem respell_kwNormalized (ha : Admissible upper f) (n : Node) (w : Text) :
+theorem respell_kwNormalized (ha : AdmissibleNames upper f) (n : Node) (w : Text) :
     ((respell f n).isKeyword && (respell f n).normalized upper == w) = (n.isKeyword && n.normalized upper == w) := by
   cases n with
   | grp c ks => simp [Node.isKeyword]
@@ -129,7 +149,7 @@ theorem respell_kwNormalized (ha : Admissible upper f) (n : Node) (w : Text) :
     | false => simp
 
 /-- `token.normalized == w or not token.is_keyword` -/
-theorem respell_normalizedOrNotKw (ha : Admissible upper f) (n : Node) (w : Text) :
+theorem respell_normalizedOrNotKw (ha : AdmissibleNames upper f) (n : Node) (w : Text) :
     ((respell f n).normalized upper == w || !(respell f n).isKeyword) = (n.normalized upper == w || !n.isKeyword) := by
   cases n with
   | grp c ks => simp [Node.isKeyword]
@@ -238,7 +258,7 @@ theorem tokenPrev_respell (ks : List Node) (idx : Nat) (w m : Bool) :
     tokenPrev (ks.map (respell f)) idx w m = (tokenPrev ks idx w m).map (rp f) :=
   tokenMatchingRev_respell _ _ (skipMatcher_respell w m) ks _
 
-theorem tokenNextBy_respell {upper : Text → Text} (ha : Admissible upper f) (ks : List Node) (i : List Cls)
+theorem tokenNextBy_respell {upper : Text → Text} (ha : AdmissibleNames upper f) (ks : List Node) (i : List Cls)
     (m : List MPat) (t : TArg) (hp : SafePats m = true) (start : Nat) (stop : Option Nat) :
     tokenNextBy upper (ks.map (respell f)) i m t start stop = (tokenNextBy upper ks i m t start stop).map (rp f) :=
   tokenMatchingFwd_respell _ _ (fun k => respell_imt ha k i m t hp) ks _ _
